@@ -37,6 +37,13 @@ inductive Line where
   | pragmaWarning
   /-- a line that is not a directive -/
   | text (toks : List PTok)
+  /-- a directive line that `preprocess_command` rejects whatever the state: `#pragma` with an unknown or missing name
+  (`UnknownPragma`), a directive name that is none (`UnknownCommand`), `#include` whose operand is not one string literal
+  / header name (`InvalidInclude`).  The pending text was flushed when the `#` was met, so an error of that text wins -/
+  | rejected (e : Err)
+  /-- the null directive: `#` alone on its line (C11 6.10.7).  The `#` flushes the pending text like every directive; the
+  line end that follows is met in state `CommandStart` and goes to `active_tokens` (arm `(Token::Endline, _)`) -/
+  | null
   deriving DecidableEq, Repr, Inhabited
 
 /-- the include handler: include name ↦ `FileData { real_name, contents }` = (real name, lines of the file) -/
@@ -114,6 +121,14 @@ def stepLine (inc : String → State → Except Err State) (cur : String) :
       match inc name st with
       | .error e => .error e
       | .ok st => .ok (st, [])
+  | (st, active), .rejected e =>
+    match flush st active with
+    | .error e' => .error e'
+    | .ok _ => .error e
+  | (st, active), .null =>
+    match flush st active with
+    | .error e => .error e
+    | .ok st => .ok (st, [eol])
 
 def foldLines (inc : String → State → Except Err State) (cur : String) :
     State × List PTok → List Line → Except Err (State × List PTok)
